@@ -37,6 +37,9 @@ type Conf struct {
 	Step   time.Duration          // virtual time that passes after every request (0 = the clock only moves by explicit operations)
 	Shadow string                 // "mem": every request is also served by a memory store instance (store equivalence)
 	Nest   bool                   // the root directory is created inside an outer directory that holds sentinel files
+	// DebugLog: run with a debug-level logger whose output is discarded: what olareg hands to its logger is then read
+	// (formatted) at the call site, as it is in a deployment with -v debug
+	DebugLog bool
 }
 
 func bp(b bool) *bool { return &b }
@@ -139,6 +142,10 @@ func NewWorld(conf *Conf, rc vrt.Config) *World {
 			}
 			return a
 		}}))
+	}
+	if conf.DebugLog && os.Getenv("VERIF_LOG") == "" {
+		// a logger that formats every record (and so reads every argument it is handed) and throws the text away
+		c.Log = slog.New(slog.NewTextHandler(io.Discard, &slog.HandlerOptions{Level: slog.LevelDebug - 8}))
 	}
 	w.Cfg = c
 	w.S = olareg.New(c)
